@@ -122,7 +122,7 @@ CHECKS = {
         "technique": "property-based testing (rapid): keys constructed from generated primes/scalars, round trip through the client's register builders, message transport in three encodings and the extraction accessors, oracle key.Equal; accessor totality on generated and degraded decodable objects",
         "level_text": "Generated-input exploration: RSA keys from two generated primes and ECDSA scalars on the four curves (boundary scalars included) are registered in every format the builders accept, carried through a request and a Get response at every version in binary, XML and JSON, and extracted with each accessor; the extracted key must be mathematically equal to the original (Equal), PEM accessors must re-parse to an equal key. Second half: every accessor on every decodable Get response payload (generated objects with 0..3 sub-elements removed or re-typed) must return a value or an error, never panic.",
         "level_note": "RSA moduli 1024..2064 bits (Go's crypto/rsa refuses smaller keys), public exponents {3,17,257,65537}; prime search is deterministic from the drawn bytes; trusts crypto/* for Equal and parsing.",
-        "jobs": [rapid("codec", "TestC14Keys", 250, 2000), rapid("codec", "TestC14Symmetric", 2000, 20000, shards=4), rapid("codec", "TestC14Accessors", 8000, 50000)],
+        "jobs": [rapid("codec", "TestC14Keys", 250, 2000), rapid("codec", "TestC14Symmetric", 2000, 20000, shards=4), rapid("codec", "TestC14Accessors", 8000, 50000), rapid("codec", "TestC14AccessorPairs", 300, 3000, shards=4)],
         "assumptions": ["the private-key pipeline is observed at the library's accessors, as the property states"],
     },
     "C15": {
